@@ -51,6 +51,9 @@ func C10(c *core.Ctx) {
 	emit(c, a.QualifiedResolution())
 	ruleDedup(c)
 	ruleDefsAsWritten(c)
+	// "each definition yields one Go type": a declaration reached twice (a document reached through two spellings, the alias of a
+	// referenced branch) is kept once (A-DECLSET)
+	ruleDeclSet(c)
 	skel.DepsDir = filepath.Join(c.VerifDir, "checker", "testdata", "emitdeps")
 	// ONE definition reached from three kinds of places — a property, the items of an array, the values of a map: one Go type, generated
 	// once, with its checks, whichever referrer is visited first
